@@ -27,6 +27,10 @@ const (
 	ERR   Outcome = "err"   // error reply, not applied
 	STALL Outcome = "stall" // no reply until well past the client's deadline, not applied
 	DROP  Outcome = "drop"  // connection closed without a reply, not applied
+	// DISKERR: the replica's own write to its head file fails (the descriptor is
+	// swapped for a read-only one for the duration of the call): the failure
+	// happens inside Replica.WriteAt, below everything the replica does around a write
+	DISKERR Outcome = "diskerr"
 )
 
 // DPCall is one entry of a node's data-path log.
@@ -608,7 +612,7 @@ type faultDP struct {
 
 func (d *faultDP) fault(kind string, o Outcome) error {
 	switch o {
-	case ERR:
+	case ERR, DISKERR:
 		return fmt.Errorf("injected %s error on %s", kind, d.n.Name)
 	case STALL:
 		d.n.markSlow()
@@ -676,6 +680,32 @@ func (d *faultDP) WriteAt(p []byte, off int64) (c int, err error) {
 	defer d.died("write", &err)
 	o := d.n.take("write")
 	i := d.begin(DPCall{Kind: "write", Off: off, Len: int64(len(p)), Sum: sum64(p), Outcome: o})
+	if o == DISKERR {
+		if r := d.n.S.Replica(); r != nil {
+			if fd := int(r.VerifHeadFd()); fd > 0 {
+				saved, e1 := syscall.Dup(fd)
+				ro, e2 := syscall.Open("/dev/null", syscall.O_RDONLY, 0)
+				if e1 == nil && e2 == nil && syscall.Dup3(ro, fd, 0) == nil {
+					c, err = d.n.S.WriteAt(p, off)
+					syscall.Dup3(saved, fd, 0)
+					syscall.Close(saved)
+					syscall.Close(ro)
+					if err == nil {
+						err = fmt.Errorf("HARNESS: write succeeded on a read-only descriptor")
+					}
+					d.done(i, err)
+					return c, err
+				}
+				if e1 == nil {
+					syscall.Close(saved)
+				}
+				if e2 == nil {
+					syscall.Close(ro)
+				}
+			}
+		}
+		o = ERR
+	}
 	if err := d.fault("write", o); err != nil {
 		return 0, err
 	}
